@@ -276,6 +276,22 @@ theorem runOnly_none (s : Bool) : ∀ (ws : List (Step δ)) (h : Heap δ),
     rw [if_neg (hall w List.mem_cons_self)]
     exact ih h (fun w' hw' => hall w' (List.mem_cons_of_mem _ hw'))
 
+/-- writes outside a set leave every record of the set as it was -/
+theorem writeAll_outside (S : List Nat) : ∀ (ws : List (Step δ)) (h' h : Heap δ),
+    (∀ w ∈ ws, w.addr ∉ S) → (∀ x ∈ S, get h' x = get h x) →
+    ∀ x ∈ S, get (writeAll h' ws) x = get h x := by
+  intro ws
+  induction ws with
+  | nil => intro h' h _ hag x hx; exact hag x hx
+  | cons w ws ih =>
+    intro h' h hout hag x hx
+    simp only [writeAll]
+    apply ih (set h' w.addr w.obj) h (fun w' hw' => hout w' (List.mem_cons_of_mem _ hw')) _ x hx
+    intro y hy
+    have hne : y ≠ w.addr := fun he => hout w List.mem_cons_self (he ▸ hy)
+    rw [get_set_ne _ _ _ _ hne]
+    exact hag y hy
+
 /-! ### deep copy -/
 
 theorem get_append_left_none : ∀ (h1 h2 : Heap δ) (x : Nat), get h1 x = none →
